@@ -736,16 +736,28 @@ def build_precip(cfg):
 _ALMGSI = {}
 
 
+ALMGSI_PHASES = ['FCC_A1', 'MGSI_B_P', 'MG5SI6_B_DP', 'B_PRIME_L', 'U1_PHASE', 'U2_PHASE']
+
+
+def almgsi_therm():
+    """Al-Mg-Si with five precipitate phases (kawin.tests.datasets.ALMGSI_DB)"""
+    vlib.use_repo()
+    if 'th' not in _ALMGSI:
+        from kawin.tests.datasets import ALMGSI_DB
+        from kawin.thermo import MulticomponentThermodynamics
+        th = MulticomponentThermodynamics(ALMGSI_DB, ['AL', 'MG', 'SI'], ALMGSI_PHASES, drivingForceMethod='tangent')
+        th.setDFSamplingDensity(2000); th.setEQSamplingDensity(500)
+        _ALMGSI['th'] = th
+    return _ALMGSI['th']
+
+
 def _build_almgsi(cfg):
     """the 5-precipitate Al-Mg-Si configuration of test_precipitationSavingLoading"""
     from kawin.tests.datasets import ALMGSI_DB
     from kawin.thermo import MulticomponentThermodynamics
     from kawin.precipitation import PrecipitateModel, PrecipitateParameters, MatrixParameters, TemperatureParameters
-    phases = ['FCC_A1', 'MGSI_B_P', 'MG5SI6_B_DP', 'B_PRIME_L', 'U1_PHASE', 'U2_PHASE']
-    if 'th' not in _ALMGSI:
-        th = MulticomponentThermodynamics(ALMGSI_DB, ['AL', 'MG', 'SI'], phases, drivingForceMethod='tangent')
-        th.setDFSamplingDensity(2000); th.setEQSamplingDensity(500)
-        _ALMGSI['th'] = th
+    phases = ALMGSI_PHASES
+    almgsi_therm()
     matrix = MatrixParameters(['MG', 'SI'])
     matrix.initComposition = list(cfg['x0'])
     matrix.volume.setVolume(1e-5, 'VM', 4)
@@ -1153,6 +1165,11 @@ def untrained_calls(kind, rng):
 def check_untrained(res, kind, cls, th, rng):
     cname = cls.__name__
     calls = untrained_calls(kind, rng)
+    if rng.random() < 0.5:          # the phases named explicitly instead of left to their defaults
+        for g, (args, kw) in list(calls.items()):
+            pars = inspect.signature(getattr(cls, g)).parameters
+            extra = {n: (th.phases[1] if 'prec' in n.lower() else th.phases[0]) for n in pars if 'phase' in n.lower()}
+            calls[g] = (args, dict(kw, **extra))
     for g in surrogate_getters(cls):
         if g not in calls:
             res.count('untrained-getter-without-oracle-arguments:' + g); continue
@@ -1359,6 +1376,165 @@ def check_forwarding(res, ctx, rng, nrandom):
             res.disagree('binding to the thermodynamics signature', desc, err, r['berr']); continue
         if err is None and {kk: tr(t) for kk, t in r['bound'].items()} != {kk: tokof(v) for kk, v in bound.items()}:
             res.disagree('arguments received by the thermodynamics method', desc, {kk: tokof(v) for kk, v in bound.items()}, r['bound'])
+
+
+# ---------------------------------------------------------------- (b) untrained / partially trained surrogate of a multi-precipitate system
+class ArgSpy:
+    """forwards everything to the real thermodynamics and records method name, arguments and result of every call made on it"""
+    def __init__(self, th):
+        object.__setattr__(self, '_th', th)
+        object.__setattr__(self, 'calls', [])
+
+    def __getattr__(self, name):
+        v = getattr(self._th, name)
+        if callable(v) and not name.startswith('_'):
+            def f(*a, **k):
+                r = v(*a, **k)
+                self.calls.append((name, a, k, r))
+                return r
+            return f
+        return v
+
+
+def phase_kind(th, ph, which='prec'):
+    if ph is None:
+        return 'default-phase'
+    i = list(th.phases).index(ph)
+    if which == 'prec':
+        return 'first-precipitate-named' if i == 1 else 'non-first-precipitate-phase'
+    return 'matrix-named' if i == 0 else 'non-matrix-phase'
+
+
+def check_untrained_multiphase(res, rng, quick=True):
+    """Al-Mg-Si, five precipitate phases: every getter of an untrained and of a partially trained MulticomponentSurrogate, for
+    the default phase and every named precipitate phase, against the thermodynamics method of the same quantity called with
+    the same arguments: same phase / flags received (recorded on the real object), same object returned, and exact equality
+    with an independent direct call (removeCache=True on both sides: no state is carried between the two evaluations)"""
+    vlib.use_repo()
+    from kawin.thermo import MulticomponentSurrogate
+    cls, cname = MulticomponentSurrogate, 'MulticomponentSurrogate'
+    CLASSES[cname] = cls
+    th = almgsi_therm()
+    precs = list(th.phases[1:])
+    x = np.array([round(0.0072 * rng.uniform(0.93, 1.07), 6), round(0.0057 * rng.uniform(0.93, 1.07), 6)])
+    T = round(175 + 273.15 + rng.uniform(-15, 25), 2)
+    R = np.array([0.5e-9, 1e-9, 2e-9]) * round(rng.uniform(0.8, 1.5), 3)
+    gE = np.array([2000.0, 1000.0, 500.0]) * round(rng.uniform(0.7, 1.3), 3)
+    spy = ArgSpy(th)
+    s = cls(spy)
+    base = dict(system='Al-Mg-Si (ALMGSI_DB), phases %s' % list(th.phases), surrogate=cname, x=x.tolist(), T=T, R=R.tolist(), gExtra=gE.tolist())
+    getters = surrogate_getters(cls)
+
+    def one(stage, g, args, kw, kind, trained_here):
+        desc = dict(base, stage=stage, getter=g, keywords={k: (v if isinstance(v, (str, bool, type(None))) else np.asarray(v).tolist()) for k, v in kw.items()}, trained=stage)
+        if trained_here:
+            res.count('multiphase-skipped-trained:' + g); return
+        del spy.calls[:]
+        with warnings.catch_warnings():
+            warnings.simplefilter('ignore')
+            with _quiet():
+                ref = getattr(th, g)(*args, **kw)
+                out = getattr(s, g)(*args, **kw)
+        res.case(('multiphase', stage, g, kw.get('precPhase', kw.get('phase')), float(x[0]), T), True)
+        res.count('multiphase:%s:%s' % (g, kind))
+        res.count('multiphase-output:' + ('None' if out is None else 'value'))
+        called = [c[0] for c in spy.calls]
+        if called != [g]:
+            res.violate('untrained-%s.%s-calls-%s' % (cname, g, '+'.join(called) or 'nothing'),
+                        'the untrained branch calls thermodynamics.%s, not thermodynamics.%s once' % ('/'.join(called) or 'nothing', g), desc, observed=called, required=[g])
+        else:
+            _n, a, k, r = spy.calls[0]
+            bound, err = bind_thermo(cls, g, a, k)
+            if err is not None:
+                res.violate('untrained-%s.%s-forwarded-call-does-not-bind' % (cname, g), 'forwarded call does not bind: %s' % ' '.join(err), desc)
+            else:
+                for n, v in kw.items():
+                    want = v
+                    if v is None and 'phase' in n.lower():
+                        want = resolved_default(n, None, list(th.phases))
+                    got = bound.get(n, EMPTY)
+                    if got is EMPTY and v is not None:
+                        res.violate('untrained-%s.%s-drops-argument-%s' % (cname, g, n),
+                                    'the caller supplied %s=%s; thermodynamics.%s did not receive it and uses its default' % (n, tokof(v) if isinstance(v, (str, bool)) else 'array', g),
+                                    desc, observed='not received', required=desc['keywords'][n])
+                    elif got is not EMPTY and not (got is want or same_arg_or_eq(got, want)):
+                        res.violate('untrained-%s.%s-changes-argument-%s' % (cname, g, n),
+                                    'the caller supplied %s; thermodynamics.%s received another value' % (n, g), desc,
+                                    observed=got if isinstance(got, (str, bool, type(None))) else brief(got), required=desc['keywords'][n])
+            if out is not r:
+                res.violate('untrained-%s.%s-does-not-return-the-thermodynamics-result' % (cname, g), 'result is not the object the thermodynamics call returned', desc)
+        exact = deep_same(out, ref)
+        res.count('multiphase-vs-direct-call:' + ('bit-identical' if exact else 'DIFFERENT'))
+        if not exact:
+            res.violate('untrained-%s.%s-differs-from-thermodynamics-%s' % (cname, g, kind),
+                        'untrained %s.%s(%s) is not what thermodynamics.%s returns for the same arguments' % (cname, g, ', '.join('%s=%s' % (k, desc['keywords'][k]) for k in kw if 'hase' in k), g),
+                        desc, observed=show_out(out), required=show_out(ref))
+
+    def sweep(stage, trainedDF=(), trainedCurv=()):
+        phs = [None] + precs
+        for ph in phs:
+            name = th.phases[1] if ph is None else ph
+            kind = phase_kind(th, ph)
+            kwp = dict(precPhase=ph, removeCache=True) if ph is not None or rng.random() < 0.5 else dict(removeCache=True)
+            with warnings.catch_warnings():
+                warnings.simplefilter('ignore')
+                with _quiet():
+                    dg, xP = th.getDrivingForce(x, T, precPhase=ph, removeCache=True)
+            sd = None if xP is None or not np.all(np.isfinite(np.asarray(xP, dtype=float))) else np.array(xP, dtype=float)
+            kws = dict(kwp, searchDir=sd)
+            dgv = float(dg) if dg is not None and np.isfinite(dg) else 0.0
+            table = {'getDrivingForce': ((x, T), kwp, name in trainedDF),
+                     'curvatureFactor': ((x, T), kws, name in trainedCurv),
+                     'getGrowthAndInterfacialComposition': ((x, T, dgv, R, gE), kws, name in trainedCurv),
+                     'impingementFactor': ((x, T), kws, name in trainedCurv)}
+            for g in getters:
+                if g in table:
+                    args, kw, tr = table[g]
+                    one(stage, g, args, kw, kind, tr)
+                    if g == 'getGrowthAndInterfacialComposition' and not tr:
+                        one(stage, g, (x, T, dgv, float(R[1]), float(gE[1])), kw, kind, tr)       # scalar radius
+                elif g not in ('getInterdiffusivity', 'getTracerDiffusivity'):
+                    res.count('multiphase-getter-without-oracle-arguments:' + g)
+        for g in ('getInterdiffusivity', 'getTracerDiffusivity'):
+            if g in getters:
+                for phm in (None, th.phases[0]):
+                    kw = dict(removeCache=True) if phm is None else dict(phase=phm, removeCache=True)
+                    one(stage, g, (x, T), kw, phase_kind(th, phm, 'matrix'), False)
+                xs = np.array([x, x * 0.8]); Ts = np.array([T, T + 25.0])
+                one(stage, g, (xs, Ts), dict(removeCache=True), 'default-phase', False)
+
+    sweep('nothing trained')
+    # partially trained: driving force of ONE phase, curvature of ANOTHER one; everything else must still pass through
+    pa, pb = rng.sample(precs, 2)
+    xtr = [[a, b] for a in (0.005, 0.007, 0.009) for b in (0.004, 0.006, 0.008)]
+    d2 = dict(base, stage='training', drivingForcePhase=pa, curvaturePhase=pb)
+    ok1, _ = _guard(res, 'train-%s.trainDrivingForce-multiphase' % cname, 'trainDrivingForce(precPhase=%s)' % pa, d2, lambda: s.trainDrivingForce(xtr, [T, T + 50], precPhase=pa))
+    ok2 = False
+    if not quick or rng.random() < 0.5:
+        with _quiet():
+            ok2, _ = _guard(res, 'train-%s.trainCurvature-multiphase' % cname, 'trainCurvature(precPhase=%s)' % pb, d2,
+                            lambda: s.trainCurvature([[0.0068, 0.0054], [0.0072, 0.0057], [0.0076, 0.0060], [0.0072, 0.0062]], [T, T + 50], precPhase=pb))
+        ok2 = ok2 and pb in s.curvatureModels
+    if ok1 and pa not in s.drivingForceModels:
+        res.violate('trained-%s.trainDrivingForce-named-phase-not-registered' % cname, 'trainDrivingForce(precPhase=%s) did not create a model for that phase' % pa, d2,
+                    observed=sorted(s.drivingForceModels), required=[pa])
+    for ph_other in s.drivingForceModels:
+        if ph_other != pa:
+            res.violate('trained-%s.trainDrivingForce-trains-other-phase' % cname, 'trainDrivingForce(precPhase=%s) created a model for %s' % (pa, ph_other), d2)
+    sweep('driving force of %s%s trained' % (pa, ' and curvature of %s' % pb if ok2 else ''), trainedDF=(pa,) if ok1 else (), trainedCurv=(pb,) if ok2 else ())
+    res.count('multiphase-partially-trained:' + ('DF+curvature' if ok2 else 'DF'))
+
+
+def show_out(o):
+    if o is None:
+        return None
+    if isinstance(o, tuple) and not hasattr(o, '_fields'):
+        return [brief(v) for v in o]
+    if hasattr(o, '_asdict'):
+        return {k: brief(v) for k, v in o._asdict().items()}
+    if hasattr(o, '__dict__') and not isinstance(o, np.ndarray):
+        return {k: brief(v) for k, v in vars(o).items()}
+    return brief(o)
 
 
 def _guard(res, key, what, desc, fn):
@@ -1740,7 +1916,7 @@ def corr(ctx, scale=1, oracle_only=False, only=None):
     res.monitored = list(MONITORED)
     res.rule = ('real Al-Zr KWN runs (random x0, T, class count, adaptive on/off, Euler/RK4, PSD recording on/off; thorough: + Ni-Cr-Al, 5-precipitate Al-Mg-Si) saved between solve calls and after completion; '
                 'random SinglePhaseModel runs (1-3 solutes, 5-40 nodes, 1-3 solve calls, recording on/off/switched off/switched on/removed; thorough: + real Ni-Cr(-Al) thermodynamics, HomogenizationModel); '
-                'untrained getters on random points of the real Al-Zr / Ni-Cr-Al thermodynamics; tiny trained surrogates (linear/log, broadcast or point lists); random arrays through JSON. '
+                'untrained getters on random points of the real Al-Zr / Ni-Cr-Al thermodynamics (phases by default or named); every getter of both surrogate classes on a recording mock thermodynamics in every call form (default, all keywords, each keyword alone, positional, positional extras) + random calls, non-default value for every argument; untrained and partially trained MulticomponentSurrogate of Al-Mg-Si (5 precipitate phases) for every phase; tiny trained surrogates (linear/log, broadcast or point lists); random arrays through JSON. '
                 'non-trivial = populated size distribution / evolved profile / a getter evaluated; distinct = configuration + save point')
     rng = ctx.rng
     tmp = tempfile.mkdtemp(prefix='kawin_C20_', dir='/tmp')
@@ -1791,6 +1967,9 @@ def corr(ctx, scale=1, oracle_only=False, only=None):
                 for _ in range(ctx.n(2, 10) * scale):
                     guarded(res, errs, 'untrained-binary-case', {}, lambda: check_untrained(res, 'binary', BinarySurrogate, thb, rng))
                     guarded(res, errs, 'untrained-multi-case', {}, lambda: check_untrained(res, 'multi', MulticomponentSurrogate, tht, rng))
+                guarded(res, errs, 'untrained-forwarding-case', {}, lambda: check_forwarding(res, ctx if not oracle_only else _NoDriver(ctx), rng, ctx.n(10, 60) * scale))
+                for _ in range(ctx.n(1, 4) * scale):
+                    guarded(res, errs, 'untrained-multiphase-case', {}, lambda: check_untrained_multiphase(res, rng, quick=not ctx.thorough))
                 for k in range(ctx.n(3, 30) * scale):
                     guarded(res, errs, 'trained-binary-case', {}, lambda: check_trained_binary(res, thb, rng, tmp, jlines, jpending, force=[True, False, None][min(k, 2)]))
                 for k in range(ctx.n(2, 12) * scale):
